@@ -390,7 +390,7 @@ def random_case(draw):
 def explore(rec):
     quick = rec.tier == "quick"
     rec.enum("sequences<=3 x 8 capture combinations", enumeration())
-    rec.hyp("random-programs", random_case(), 5000 if quick else 120000)
+    rec.hyp("random-programs", random_case(), 10000 if quick else 200000)
     rec.hyp("cli", random_case().map(lambda c: dict(c, kind="cli")), 16 if quick else 200)
 
 
